@@ -460,23 +460,32 @@ class GeometryCheck:
         t0 = time.time()
         run, skipped = vlib.runnable_archs()
         allarchs = [a[0] for a in vlib.ARCHS + vlib.ARCHS_COMPILE_ONLY]
+        cross = {a[0]: a for a in vlib.ARCHS_CROSS}
+        cross_skipped = []
         gen_dir = os.path.join(vlib.BUILD, "gen")
         os.makedirs(gen_dir, exist_ok=True)
         results = {}
 
         def one(arch):
-            name, tag, flags, _ = vlib.ARCH_BY_NAME[arch]
+            if arch in cross:
+                name, tag, flags, _ = cross[arch]
+            else:
+                name, tag, flags, _ = vlib.ARCH_BY_NAME[arch]
             src = os.path.join(gen_dir, "geometry.%s.cpp" % arch)
             text = subprocess.run([sys.executable, os.path.join(vlib.VERIF, "gen", "gen_geometry.py"), arch, tag], stdout=subprocess.PIPE, text=True).stdout
             vlib.write_if_changed(src, text)
             nassert = text.count("static_assert(")
             target = os.path.join(vlib.OBJ, "geometry.%s" % arch)
             argv = [vlib.CXX, "-std=c++17", "-O0", "-I" + os.path.join(vlib.REPO, "include")] + flags.split() + [src]
+            if arch in cross:
+                argv = vlib.cross_cmd(arch, src)
+                if argv is None:
+                    return arch, 0, [], "no clang++"
             ok, log = vlib.build_object(target, argv, [src])
             fails = []
             if not ok:
                 for l in log.splitlines():
-                    if "static assertion failed" in l or ("error:" in l and "static assertion" not in l):
+                    if "static assertion failed" in l or "static_assert failed" in l or ("error:" in l and "static assertion" not in l):
                         fails.append(l.strip()[-300:])
                 if not fails:
                     fails = [log[-600:]]
@@ -490,7 +499,10 @@ class GeometryCheck:
 
         from concurrent.futures import ThreadPoolExecutor
         with ThreadPoolExecutor(max_workers=vlib.NPROC) as ex:
-            for arch, nassert, fails, runmsg in ex.map(one, allarchs):
+            for arch, nassert, fails, runmsg in ex.map(one, allarchs + list(cross)):
+                if arch in cross and runmsg == "no clang++":
+                    cross_skipped.append(arch)
+                    continue
                 results[arch] = (nassert, fails, runmsg)
         viol = []
         states = 0
@@ -505,14 +517,14 @@ class GeometryCheck:
             if runmsg:
                 viol.append({"property": prop, "op": "aligned_load_at_alignment", "type": "float", "arch": arch, "note": runmsg, "finding": "", "in": [], "program": "build/gen/geometry.%s.cpp" % arch})
         res = {"states": states, "transitions": states, "distinct_nontrivial": states, "exhaustive": True, "violations": viol, "violations_unknown": len(viol), "violations_total": len(viol),
-               "by_key": {"%s|%s|%s|" % (v["op"], v["type"], v["arch"]): 1 for v in viol}, "by_finding": {}, "architectures": allarchs, "wall_s": time.time() - t0,
+               "by_key": {"%s|%s|%s|" % (v["op"], v["type"], v["arch"]): 1 for v in viol}, "by_finding": {}, "architectures": allarchs + [a for a in cross if a in results], "wall_s": time.time() - t0,
                "samples": [{"program": "build/gen/geometry.avx2.cpp", "example_obligation": "static_assert(xsimd::batch<int16_t, A>::size * sizeof(int16_t) == 32)"},
                            {"program": "build/gen/geometry.avx512pf.cpp", "note": "compile-only architecture (not executable on this host)"}],
-               "notes": ["%s: %d static assertions%s" % (a, r[0], ", run-time aligned load at alignment() executed" if a in run else ", compile-only") for a, r in sorted(results.items())],
+               "notes": ["%s: %d static assertions%s" % (a, r[0], ", run-time aligned load at alignment() executed" if a in run else (", cross-target, clang -fsyntax-only against the host's libstdc++ headers + /verif/shim" if a in cross else ", compile-only")) for a, r in sorted(results.items())] + (["cross-target programs skipped (no clang++ on PATH): " + " ".join(cross_skipped)] if cross_skipped else []),
                "per_arch_points": {a: r[0] for a, r in results.items()}}
-        rule = ("one generated program per architecture (25: the 22 executable ones plus fma4, avx512er, avx512pf compile-only), each a list of static_asserts over every (architecture, element type, lane count) triple; "
+        rule = ("one generated program per architecture (25 x86/emulated: the 22 executable ones plus fma4, avx512er, avx512pf compile-only; plus 7 cross-target compile-only programs neon, neon64, i8mm<neon64>, sve 128/256/512, wasm), each a list of static_asserts over every (architecture, element type, lane count) triple; "
                 "an assertion that does not hold is a compile error naming the triple; states = transitions = obligations compiled (+ one executed aligned load per runnable architecture)")
-        bound = "21 element types (8 fixed-width integers, char/short/int/long/long long twins, float, double) + complex<float/double> + bool x 25 architectures; make_sized_batch<T,N> for 6 types x N in 1..128; list order against a parent table written from the ISA manuals; exhaustive"
+        bound = "21 element types (8 fixed-width integers, char/short/int/long/long long twins, float, double) + complex<float/double> + bool x 25 (+7 cross-target) architectures; make_sized_batch<T,N> for 6 types x N in 1..128; list order against a parent table written from the ISA manuals; exhaustive"
         return _finish(prop, tier, seed, res, skipped, rule, bound, ["the compiler evaluates static_assert correctly"], {"programs": len(allarchs)}, replay_kind="geometry")
 
     def replay(self, prop, path):
